@@ -316,20 +316,28 @@ func translate(context Context, args ...Result) (Result, error) {
 	}
 
 	src := args[0].String()
-	old := args[1].String()
-	new := args[2].String()
+	old := []rune(args[1].String())
+	new := []rune(args[2].String())
+	ret := strings.Builder{}
 
-	for i := range old {
-		r := ""
+	for _, c := range src {
+		ind := -1
 
-		if i < len(new) {
-			r = string(new[i])
+		for i := range old {
+			if old[i] == c {
+				ind = i
+				break
+			}
 		}
 
-		src = strings.Replace(src, string(old[i]), r, -1)
+		if ind < 0 {
+			ret.WriteRune(c)
+		} else if ind < len(new) {
+			ret.WriteRune(new[ind])
+		}
 	}
 
-	return String(src), nil
+	return String(ret.String()), nil
 }
 
 func boolean(context Context, args ...Result) (Result, error) {
